@@ -14,7 +14,49 @@ and the leaf handler each protocol instance actually dispatches to is read from 
 classes (whatever the working tree computes).  Every shape that is not recognised exactly
 raises TranslateError (fail closed)."""
 import ast, sys, inspect, importlib
-from .pyexpr import BoolTranslator, TranslateError, find_function, attr_chain, TRUE, FALSE
+from .pyexpr import BoolTranslator, TranslateError, attr_chain, TRUE, FALSE
+from .pyexpr import find_function as _find_function
+from .dictdoc_norm import canon, cparse, alpha
+
+# Every module is read in a structural normal form (dictdoc_norm.canon: docstrings, log calls and plain message
+# texts dropped, else-after-return flattened, `not a in b` / `a not in b`, `x is True or x is False` /
+# isinstance(x, bool), six shims resolved for Python 3, ...) and every template below is parsed into the same
+# form; the local names of a pinned function are renamed, by order of first binding, onto the names its templates
+# use (a bijection between locals: it changes nothing the function does).  Anything that still does not match
+# fails closed as before.
+VOCABULARY = {
+    ('MessagePackDocument', 'integer_to_bytes'): ['self', 'cls', 'value'],
+    ('MessagePackDocument', 'integer_from_bytes'): ['self', 'cls', 'value'],
+    ('MessagePackDocument', '_ret_number'): ['self', 'cls', 'value'],
+    ('MessagePackDocument', '_ret_bool'): ['self', 'cls', 'value'],
+    ('JsonDocument', '_ret_number'): ['self', 'cls', 'value'],
+    ('JsonDocument', '_ret_bool'): ['self', 'cls', 'value'],
+    ('YamlDocument', '_ret_number'): ['self', 'cls', 'value'],
+    ('YamlDocument', '_ret_bool'): ['self', 'cls', 'value'],
+    ('MessagePackRpc', 'decompose_incoming_envelope'): ['self', 'ctx', 'message', 'msgparams', 'msgtype', 'msgid',
+                                                        'msgname_or_error', 'e'],
+    ('MessagePackRpc', 'deserialize'): ['self', 'ctx', 'message', 'body_class'],
+    ('MessagePackDocument', 'gen_method_request_string'): ['self', 'ctx', 'mrs', 'e'],
+    ('HierDictDocument', '_get_member_pairs'): ['self', 'cls', 'inst', 'tags', 'old_len', 'k', 'v', 'subattr', 'subinst', 'val',
+                                                'min_o', 'complex_as', 'sub_name'],
+    ('HierDictDocument', '_object_to_doc'): ['self', 'cls', 'inst', 'tags', 'retval', 'inst_id', 'cls_attrs', 'cls_orig', 'ti',
+                                             'key', 'subinst'],
+    ('HierDictDocument', '_doc_to_object'): ['self', 'ctx', 'cls', 'doc', 'validator', 'retval', 'serializer', 'i', 'child',
+                                             'cls_attrs', 'subclasses', 'class_name', 'subcls', 'inst', 'flat_type_info',
+                                             'frequencies', 'items', 'k', 'v', 'member', 'member_attrs', 'mo', 'subinst', 'a',
+                                             'attrs'],
+    ('HierDictDocument', '_from_dict_value'): ['self', 'ctx', 'key', 'cls', 'inst', 'validator', 'cls_attrs', 'complex_as',
+                                               'check_complex_as', 'retval'],
+    ('HierDictDocument', 'deserialize'): ['self', 'ctx', 'message', 'body_class', 'doc', 'class_name', 'sub_name', 'is_bare'],
+    ('DictDocument', '_check_freq_dict'): ['self', 'cls', 'd', 'fti', 'flat', 'k', 'v', 'val', 'attrs', 'min_o', 'max_o'],
+    ('ByteArray', 'to_base64'): ['cls', 'value'],
+}
+
+
+def find_function(tree, path):
+    fn = _find_function(tree, path)
+    voc = VOCABULARY.get(tuple(path))
+    return alpha(fn, voc) if voc else fn
 
 
 def zlit(v):
@@ -64,7 +106,7 @@ def module_tree(name, repo):
     mod = importlib.import_module(name)
     if not mod.__file__.startswith(repo.rstrip('/') + '/'):
         raise TranslateError('%s imported from %s, not from %s' % (name, mod.__file__, repo))
-    return mod, ast.parse(inspect.getsource(mod))
+    return mod, canon(ast.parse(inspect.getsource(mod)))
 
 
 def strip_doc(body):
@@ -98,15 +140,14 @@ def tr_mp_integer_to_bytes(tree):
     if [a.arg for a in fn.args.args] != ['self', 'cls', 'value']:
         raise TranslateError('integer_to_bytes: unexpected signature')
     body = strip_doc(fn.body)
-    if len(body) != 1 or not isinstance(body[0], ast.If):
-        raise TranslateError('integer_to_bytes: body is not a single if')
+    # normal form of `if T: return value / else: return <inherited>`: the else is flattened
+    if len(body) != 2 or not isinstance(body[0], ast.If) or body[0].orelse:
+        raise TranslateError('integer_to_bytes: body is not `if ...: return value` followed by the inherited form')
     st = body[0]
-    if not (len(st.body) == 1 and isinstance(st.body[0], ast.Return) and isinstance(st.body[0].value, ast.Name)
-            and st.body[0].value.id == 'value'):
+    if [ast.dump(x) for x in st.body] != tmpl('return value'):
         raise TranslateError('integer_to_bytes: then-branch is not `return value`')
-    if not (len(st.orelse) == 1 and isinstance(st.orelse[0], ast.Return) and 'integer_to_bytes' in ast.dump(st.orelse[0])
-            and 'super' in ast.dump(st.orelse[0])):
-        raise TranslateError('integer_to_bytes: else-branch is not the inherited text form')
+    if [ast.dump(body[1])] != tmpl('return super(MessagePackDocument, self).integer_to_bytes(cls, value)'):
+        raise TranslateError('integer_to_bytes: otherwise it is not the inherited text form')
     cmp, num = cmp_ext({'value': '(Fin value)'})
     t = BoolTranslator(lambda n: None, cmp, num).tr(st.test)
     return 'Definition mp_native_int (value : Z) : bool :=\n  %s.\n' % t
@@ -117,7 +158,7 @@ def body_dumps(fn):
 
 
 def tmpl(src):
-    return [ast.dump(x) for x in ast.parse(src).body]
+    return [ast.dump(x) for x in cparse(src).body]
 
 
 def tr_mp_integer_from_bytes(tree):
@@ -141,11 +182,17 @@ def tr_mp_integer_from_bytes(tree):
 
 
 def non_number_types(tree, where):
+    """NON_NUMBER_TYPES is (list, dict, str, bytes) in any order, spelled as a tuple / list literal or as
+    tuple(<set / list / tuple literal>): isinstance only asks for membership"""
+    want = sorted(ast.dump(cparse(x, mode='eval').body) for x in ('list', 'dict', 'six.text_type', 'six.binary_type'))
     for n in tree.body:
         if isinstance(n, ast.Assign) and len(n.targets) == 1 and isinstance(n.targets[0], ast.Name) \
                 and n.targets[0].id == 'NON_NUMBER_TYPES':
-            if ast.dump(n.value) != ast.dump(ast.parse('tuple({list, dict, six.text_type, six.binary_type})',
-                                                       mode='eval').body):
+            v = n.value
+            if isinstance(v, ast.Call) and isinstance(v.func, ast.Name) and v.func.id == 'tuple' and len(v.args) == 1 \
+                    and not v.keywords:
+                v = v.args[0]
+            if not isinstance(v, (ast.Tuple, ast.List, ast.Set)) or sorted(ast.dump(e) for e in v.elts) != want:
                 raise TranslateError('%s: NON_NUMBER_TYPES is not (list, dict, str, bytes)' % where)
             return True
     return False
@@ -227,7 +274,7 @@ def tr_member_written(tree):
     # holds the ANCESTORS of a member only; grown in place (`tags.add(id(inst))`) it would also hold every object
     # written before, and an instance that occurs twice without being its own ancestor would be dropped
     head = [ast.dump(x) for x in strip_doc(fn.body) if not isinstance(x, ast.For)]
-    copy_ = [ast.dump(x) for x in ast.parse("old_len = len(tags)\ntags = tags | {id(inst)}\n"
+    copy_ = [ast.dump(x) for x in cparse("old_len = len(tags)\ntags = tags | {id(inst)}\n"
                                             "assert len(tags) > old_len, ('Offending instance: %r' % inst)").body]
     muts = [n for n in ast.walk(fn) if isinstance(n, ast.Call) and isinstance(n.func, ast.Attribute)
             and isinstance(n.func.value, ast.Name) and n.func.value.id == 'tags'
@@ -240,7 +287,7 @@ def tr_member_written(tree):
     else:
         raise TranslateError('_get_member_pairs: unrecognised handling of the cycle-detection set')
     skip = [n for n in ast.walk(fn) if isinstance(n, ast.If) and ast.dump(n.test) == ast.dump(
-        ast.parse('id(subinst) in tags', mode='eval').body)]
+        cparse('id(subinst) in tags', mode='eval').body)]
     if len(skip) != 1 or [ast.dump(x) for x in skip[0].body] != [ast.dump(ast.Continue())]:
         raise TranslateError('_get_member_pairs: the member of an ancestor is no longer skipped by `if id(subinst) in tags: continue`')
     return ('Definition member_written (val_none : bool) (min_o : ext) (as_list : bool) : bool :=\n  %s.\n'
@@ -268,7 +315,7 @@ def tr_object_to_doc(tree):
         if isinstance(n, ast.If) and n is not None and ast.dump(n.test).count("attr='ignore_wrappers'") == 1 \
                 and any(x is loop for x in ast.walk(n)):
             guard = n
-    if guard is None or ast.dump(guard.test) != ast.dump(ast.parse('self.ignore_wrappers', mode='eval').body):
+    if guard is None or ast.dump(guard.test) != ast.dump(cparse('self.ignore_wrappers', mode='eval').body):
         raise TranslateError('_object_to_doc: the wrapper loop is no longer guarded by `if self.ignore_wrappers:`')
     # the repeated / single split after the loop
     split = [n for n in fn.body if isinstance(n, ast.If) and "attr='max_occurs'" in ast.dump(n.test)]
@@ -280,14 +327,14 @@ def tr_object_to_doc(tree):
     none_guard = FALSE
     if len(sp.orelse) == 1 and isinstance(sp.orelse[0], ast.If):
         t = sp.orelse[0].test
-        if ast.dump(t) == ast.dump(ast.parse('inst is not None', mode='eval').body) and not sp.orelse[0].orelse:
+        if ast.dump(t) == ast.dump(cparse('inst is not None', mode='eval').body) and not sp.orelse[0].orelse:
             none_guard = TRUE
         else:
             raise TranslateError('_object_to_doc: unrecognised elif after the max_occurs test')
     elif not (len(sp.orelse) == 1 and isinstance(sp.orelse[0], ast.Assign)):
         raise TranslateError('_object_to_doc: unrecognised else after the max_occurs test')
     first = strip_doc(fn.body)[0]
-    if ast.dump(first) != ast.dump(ast.parse('if inst is None:\n    return None').body[0]):
+    if ast.dump(first) != ast.dump(cparse('if inst is None:\n    return None').body[0]):
         raise TranslateError('_object_to_doc: does not start with `if inst is None: return None`')
     return ('Definition strip_cond (wrapper : bool) (n_members max_occurs : ext) : bool :=\n  %s.\n'
             'Definition is_repeated (max_occurs : ext) : bool :=\n  %s.\n'
@@ -298,7 +345,7 @@ def tr_object_to_doc(tree):
 def tr_doc_to_object(tree):
     fn = find_function(tree, ['HierDictDocument', '_doc_to_object'])
     first = strip_doc(fn.body)[0]
-    if ast.dump(first) != ast.dump(ast.parse('if doc is None:\n    return []').body[0]):
+    if ast.dump(first) != ast.dump(cparse('if doc is None:\n    return []').body[0]):
         raise TranslateError('_doc_to_object: does not start with `if doc is None: return []`')
     st = find_stmt(fn, lambda n: isinstance(n, ast.If) and isinstance(n.test, ast.Compare)
                    and isinstance(n.test.left, ast.Name) and n.test.left.id == 'mo', '`if mo ...`')
@@ -320,9 +367,9 @@ def tr_doc_to_object(tree):
     m = BoolTranslator(lambda n: None, cmp, num).tr(toomany.test)
     # inside `if mo > 1:` the items are iterated; is a value that cannot be iterated refused first?
     loops = [x for x in st.body if isinstance(x, ast.For)]
-    if len(loops) != 1 or ast.dump(loops[0].iter) != ast.dump(ast.parse('v', mode='eval').body):
+    if len(loops) != 1 or ast.dump(loops[0].iter) != ast.dump(cparse('v', mode='eval').body):
         raise TranslateError('_doc_to_object: the repeated branch no longer iterates `for a in v`')
-    guard = ast.dump(ast.parse('if not isinstance(v, AbcIterable):\n    raise ValidationError(v)').body[0])
+    guard = ast.dump(cparse('if not isinstance(v, AbcIterable):\n    raise ValidationError(v)').body[0])
     before = [ast.dump(x) for x in st.body[:st.body.index(loops[0])]]
     scalar = TRUE if guard in before else FALSE
     if any('AbcIterable' in b for b in before if b != guard):
@@ -339,8 +386,8 @@ def tr_from_dict_value(tree):
     branch = find_stmt(fn, lambda n: isinstance(n, ast.If) and 'ComplexModelBase' in ast.dump(n.test)
                        and 'issubclass' in ast.dump(n.test), '`issubclass(cls, ComplexModelBase)` branch')
     body = branch.body
-    repaired = ast.parse('if inst is None:\n    retval = None\nelse:\n    retval = self._doc_to_object(ctx, cls, inst, validator)').body
-    pinned = ast.parse('retval = self._doc_to_object(ctx, cls, inst, validator)').body
+    repaired = cparse('if inst is None:\n    retval = None\nelse:\n    retval = self._doc_to_object(ctx, cls, inst, validator)').body
+    pinned = cparse('retval = self._doc_to_object(ctx, cls, inst, validator)').body
     if [ast.dump(x) for x in body] == [ast.dump(x) for x in repaired]:
         v = TRUE
     elif [ast.dump(x) for x in body] == [ast.dump(x) for x in pinned]:
@@ -348,7 +395,7 @@ def tr_from_dict_value(tree):
     else:
         raise TranslateError('_from_dict_value: unrecognised complex branch')
     dec = [n for n in ast.walk(fn) if isinstance(n, ast.Try) and 'UnicodeError' in ast.dump(n)]
-    want = ast.parse("try:\n"
+    want = cparse("try:\n"
                      "    if issubclass(cls, Unicode):\n"
                      "        inst = self.unicode_from_bytes(cls, inst)\n"
                      "    else:\n"
@@ -358,7 +405,7 @@ def tr_from_dict_value(tree):
     if len(dec) != 1 or ast.dump(dec[0]) != ast.dump(want):
         raise TranslateError('_from_dict_value: byte strings are not decoded the way they were')
     guard = [n for n in ast.walk(fn) if isinstance(n, ast.If) and any(x is dec[0] for x in n.body)]
-    gwant = ast.parse("isinstance(inst, six.binary_type) and not issubclass(cls, (ByteArray, File)) "
+    gwant = cparse("isinstance(inst, six.binary_type) and not issubclass(cls, (ByteArray, File)) "
                       "and getattr(cls_attrs, 'serialize_as', None) not in ('bytes', 'bytes_le')", mode='eval').body
     if len(guard) != 1 or ast.dump(guard[0].test) != ast.dump(gwant) or guard[0].orelse:
         raise TranslateError('_from_dict_value: unrecognised guard of the byte string decoding')
@@ -373,11 +420,11 @@ def tr_from_dict_value(tree):
             or "attr='validate_string'" in ''.join(ast.dump(x) for x in seq[:i]):
         raise TranslateError('_from_dict_value: validate_string / from_serstr no longer follow the decoding')
     # the two guards in front of the leaf conversion (every validator)
-    gtext = ast.dump(ast.parse(
+    gtext = ast.dump(cparse(
         "if inst is not None and not isinstance(inst, self.VALID_UNICODE_SOURCES) "
         "and issubclass(cls, self.stringified_types + (ByteArray,)) "
         "and getattr(cls_attrs, 'serialize_as', None) is None:\n    raise ValidationError([key, inst])").body[0])
-    gnum = ast.dump(ast.parse(
+    gnum = ast.dump(cparse(
         "if inst is not None and issubclass(cls, Decimal) and not isinstance(inst, self.VALID_NUMBER_SOURCES):\n"
         "    raise ValidationError([key, inst])").body[0])
     head = [ast.dump(x) for x in seq[:i]]
@@ -388,10 +435,10 @@ def tr_from_dict_value(tree):
     cls_ = [c for c in tree.body if isinstance(c, ast.ClassDef) and c.name == 'HierDictDocument'][0]
     consts = {a.targets[0].id: ast.dump(a.value) for a in cls_.body
               if isinstance(a, ast.Assign) and isinstance(a.targets[0], ast.Name)}
-    if consts.get('VALID_UNICODE_SOURCES') != ast.dump(ast.parse(
+    if consts.get('VALID_UNICODE_SOURCES') != ast.dump(cparse(
             '(six.text_type, six.binary_type, memoryview, mmap, bytearray)', mode='eval').body):
         raise TranslateError('HierDictDocument.VALID_UNICODE_SOURCES is not what it was')
-    if has_num and consts.get('VALID_NUMBER_SOURCES') != ast.dump(ast.parse(
+    if has_num and consts.get('VALID_NUMBER_SOURCES') != ast.dump(cparse(
             'six.integer_types + (float, decimal.Decimal, six.text_type, six.binary_type)', mode='eval').body):
         raise TranslateError('HierDictDocument.VALID_NUMBER_SOURCES is not (int, float, Decimal, str, bytes)')
     # empty_is_none: which nodes are read as null
@@ -433,7 +480,7 @@ def tr_deserialize(tree):
     which key the body is looked up under, and what a null body becomes"""
     fn = find_function(tree, ['HierDictDocument', 'deserialize'])
     st = find_stmt(fn, lambda n: isinstance(n, ast.If) and ast.dump(n.test) == ast.dump(
-        ast.parse('self.ignore_wrappers', mode='eval').body) and 'class_name' in ast.dump(n), '`if self.ignore_wrappers:`')
+        cparse('self.ignore_wrappers', mode='eval').body) and 'class_name' in ast.dump(n), '`if self.ignore_wrappers:`')
     tail = [n for n in fn.body if isinstance(n, ast.If) and 'body_class' in ast.dump(n.test)]
     if len(tail) != 1:
         raise TranslateError('deserialize: expected one `if body_class:`')
@@ -443,7 +490,7 @@ def tr_deserialize(tree):
     i = stmts.index(st)
     pre = [ast.dump(x) for x in stmts[:i]]
     post = [ast.dump(x) for x in stmts[i + 1:]]
-    d = lambda src: ast.dump(ast.parse(src).body[0])
+    d = lambda src: ast.dump(cparse(src).body[0])
     if d('class_name = self.get_class_name(body_class)') not in pre:
         raise TranslateError('deserialize: class_name is not self.get_class_name(body_class)')
     # -- inside `if self.ignore_wrappers:`: optional bare renaming, optional str form, then the lookup
@@ -523,12 +570,12 @@ def tr_bytearray_base64(tree):
     body = strip_doc(fn.body)
     if not body or not isinstance(body[-1], ast.Return):
         raise TranslateError('ByteArray.to_base64: does not end with a return')
-    if ast.dump(body[-1].value) != ast.dump(ast.parse("b64encode(b''.join(value))", mode='eval').body):
+    if ast.dump(body[-1].value) != ast.dump(cparse("b64encode(b''.join(value))", mode='eval').body):
         raise TranslateError('ByteArray.to_base64: a sequence of chunks is not encoded as b64encode(b\'\'.join(value))')
-    one = ast.dump(ast.parse('if isinstance(value, (six.binary_type, memoryview, mmap)):\n    return b64encode(value)').body[0])
-    mm = (ast.dump(ast.parse('if isinstance(value, (list, tuple)) and len(value) > 0 and isinstance(value[0], mmap):\n'
+    one = ast.dump(cparse('if isinstance(value, (six.binary_type, memoryview, mmap)):\n    return b64encode(value)').body[0])
+    mm = (ast.dump(cparse('if isinstance(value, (list, tuple)) and len(value) > 0 and isinstance(value[0], mmap):\n'
                              '    return b64encode(value[0])').body[0]),
-          ast.dump(ast.parse('if isinstance(value, (list, tuple)) and isinstance(value[0], mmap):\n'
+          ast.dump(cparse('if isinstance(value, (list, tuple)) and isinstance(value[0], mmap):\n'
                              '    return b64encode(value[0])').body[0]))
     rest = [ast.dump(x) for x in body[:-1]]
     if one not in rest or any(r != one and r not in mm for r in rest):
@@ -553,6 +600,7 @@ def tr_rpc_envelope(tree):
         raise TranslateError('MessagePackRpc.decompose_incoming_envelope: expected one chain on msgtype')
     n = chain[0]
     seen = []
+    pending = None
     is_dec = lambda x: isinstance(x, ast.Raise) and isinstance(x.exc, ast.Call) and \
         isinstance(x.exc.func, ast.Name) and x.exc.func.id == 'MessagePackDecodeError'
     while True:
@@ -570,15 +618,21 @@ def tr_rpc_envelope(tree):
             want = 'REQUEST' if kind == 'MSGPACK_REQUEST' else 'RESPONSE'
             good = (len(b) == 1 and isinstance(b[0], ast.If) and not b[0].orelse and len(b[0].body) == 1
                     and is_dec(b[0].body[0])
-                    and ast.dump(b[0].test) == ast.dump(ast.parse('message != MessagePackRpc.%s' % want, mode='eval').body))
+                    and ast.dump(b[0].test) == ast.dump(cparse('message != MessagePackRpc.%s' % want, mode='eval').body))
         if not good:
             raise TranslateError('MessagePackRpc: message type %s is not answered with MessagePackDecodeError' % kind)
         seen.append(kind)
-        if len(n.orelse) == 1 and isinstance(n.orelse[0], ast.If):
-            n = n.orelse[0]
+        rest = n.orelse if pending is None else pending
+        pending = None
+        if len(rest) == 1 and isinstance(rest[0], ast.If):
+            n = rest[0]
             continue
-        if not (len(n.orelse) == 1 and is_dec(n.orelse[0])
-                and ast.dump(n.orelse[0].exc.args[0]) == ast.dump(ast.parse('"Unknown message type %r" % (msgtype,)', mode='eval').body)):
+        if len(rest) == 2 and isinstance(rest[0], ast.If) and not rest[0].orelse:
+            # normal form: a branch that ends in raise has its else flattened behind it
+            n, pending = rest[0], rest[1:]
+            continue
+        if not (len(rest) == 1 and is_dec(rest[0])
+                and ast.dump(rest[0].exc.args[0]) == ast.dump(cparse('"Unknown message type %r" % (msgtype,)', mode='eval').body)):
             raise TranslateError('MessagePackRpc: an unknown message type is not a MessagePackDecodeError of (msgtype,)')
         break
     if sorted(seen) != ['MSGPACK_ERROR', 'MSGPACK_NOTIFY', 'MSGPACK_REQUEST', 'MSGPACK_RESPONSE']:
@@ -591,7 +645,7 @@ def tr_rpc_envelope(tree):
     if vals != {'MSGPACK_REQUEST': 0, 'MSGPACK_RESPONSE': 1, 'MSGPACK_NOTIFY': 2, 'MSGPACK_ERROR': 3}:
         raise TranslateError('MessagePackRpc: message type numbers %r' % vals)
     dec = [x for x in ast.walk(fn) if isinstance(x, ast.Try) and 'msgname_or_error' in ast.dump(x)]
-    want = ast.parse("try:\n"
+    want = cparse("try:\n"
                      "    msgname_or_error = msgname_or_error.decode(self.default_string_encoding)\n"
                      "except UnicodeDecodeError as e:\n"
                      "    raise MessagePackDecodeError(str(e))\n").body[0]
@@ -599,7 +653,7 @@ def tr_rpc_envelope(tree):
         raise TranslateError('MessagePackRpc: an undecodable method name is not a MessagePackDecodeError')
     de = find_function(tree, ['MessagePackRpc', 'deserialize'])
     br = [x for x in ast.walk(de) if isinstance(x, ast.If) and ast.dump(x.test) == ast.dump(
-        ast.parse('ctx.in_body_doc is None', mode='eval').body)]
+        cparse('ctx.in_body_doc is None', mode='eval').body)]
     call = 'ctx.in_object = self._doc_to_object(ctx, body_class, ctx.in_body_doc, self.validator)'
     # one None per member of the in-message; a wrapped in-message (a ComplexModel) always has a _type_info, so the
     # getattr default (for the primitive in-message of a bare method) is outside the modelled region
@@ -613,7 +667,7 @@ def tr_rpc_envelope(tree):
     else:
         raise TranslateError('MessagePackRpc.deserialize: unrecognised treatment of the parameters')
     mk = find_function(tree, ['MessagePackDocument', 'gen_method_request_string'])
-    want = ast.parse("try:\n    mrs = mrs.decode(self.key_encoding)\n"
+    want = cparse("try:\n    mrs = mrs.decode(self.key_encoding)\n"
                      "except UnicodeDecodeError as e:\n    raise MessagePackDecodeError(str(e))\n").body[0]
     kd = [x for x in ast.walk(mk) if isinstance(x, ast.Try)]
     if len(kd) != 1 or ast.dump(kd[0]) != ast.dump(want):
@@ -645,9 +699,9 @@ def tr_check_freq(tree):
     if len(lo) != 1 or len(hi) != 1:
         raise TranslateError('_check_freq_dict: tests do not compare val with min_o and max_o')
     arr = find_stmt(fn, lambda n: isinstance(n, ast.If) and "id='Array'" in ast.dump(n.test), 'Array special case')
-    if ast.dump(arr.test) == ast.dump(ast.parse('issubclass(v, Array) and v.Attributes.max_occurs == 1', mode='eval').body):
+    if ast.dump(arr.test) == ast.dump(cparse('issubclass(v, Array) and v.Attributes.max_occurs == 1', mode='eval').body):
         hier_items = TRUE
-    elif ast.dump(arr.test) == ast.dump(ast.parse('flat and val > 0 and issubclass(v, Array) and v.Attributes.max_occurs == 1',
+    elif ast.dump(arr.test) == ast.dump(cparse('flat and val > 0 and issubclass(v, Array) and v.Attributes.max_occurs == 1',
                                                   mode='eval').body):
         a = fn.args
         if [x.arg for x in a.args] != ['self', 'cls', 'd', 'fti', 'flat'] or len(a.defaults) != 2 \
